@@ -7,15 +7,41 @@ from . import xf
 from .xf import isz, zb, CTX, Infeasible, EngineGap, term_vars
 
 STATS = {"queries": 0, "solver_s": 0.0, "unknown": 0}
+WATCHDOG_S = 200  # hard wall limit per in-process check (soft timeouts are 60-120 s)
 
 
 def reset_stats():
     STATS.update({"queries": 0, "solver_s": 0.0, "unknown": 0})
 
 
-def _timed_check(solver, *assumptions):
+def _timed_check(solver, *assumptions, hard_s=None):
+    """solver.check with a watchdog: z3's own soft timeout is not always honoured inside nlsat; after hard_s seconds (default: the
+    solver's timeout + 20 s, at most 320 s) the context is interrupted from a timer thread and the check returns unknown."""
+    import threading
+    if hard_s is None:
+        hard_s = WATCHDOG_S
+    fired = []
+    ctx = solver.ctx  # the closure must not keep the Solver alive: a Solver freed by the garbage collector in the middle of another z3 call crashes z3
+
+    def _interrupt():
+        fired.append(1)
+        try:
+            ctx.interrupt()
+        except Exception:  # noqa
+            pass
+    timer = threading.Timer(hard_s, _interrupt)
+    timer.daemon = True
+    timer.start()
     t = time.time()
-    r = solver.check(*assumptions)
+    try:
+        r = solver.check(*assumptions)
+    except z3.Z3Exception:
+        r = z3.unknown
+    finally:
+        timer.cancel()
+    if fired:
+        STATS["interrupted"] = STATS.get("interrupted", 0) + 1
+        r = z3.unknown if r not in (z3.sat, z3.unsat) else r
     STATS["solver_s"] += time.time() - t
     STATS["queries"] += 1
     if r == z3.unknown:
